@@ -96,3 +96,15 @@ Example C15_nonvacuous :
   /\ fst (should_mutate rate_zero (SrcBytes [])) = false
   /\ mutate_int_one MBoundary 7 rate_one (SrcBytes []) = Ok (Some 0%Z, SrcBytes []).
 Proof. split; [apply zero_never_fires|]. split; [apply one_always_fires|]. vm_compute. split; reflexivity. Qed.
+
+(* The gate's comparison IS the IEEE-754 binary64 `<` (Flocq 4.1: Bits.b64_of_bits decodes the rate's bit
+   pattern, Binary.B2R gives its value): for every k and every 64-bit pattern of the rate, the model's
+   integer decision on the pattern equals "k * 2^-53 < rate" in IEEE arithmetic - NaN compares false, +inf
+   true, -inf / -0 / +0 / negative numbers false, subnormal and normal numbers by value.  (That the draw is
+   the real number k * 2^-53 exactly - u64-to-f64 conversion of k < 2^53 and scaling by a power of two are
+   exact - is the one IEEE fact used but not re-proved here.) *)
+From PF.proofs Require GateIEEE.
+Theorem C15_gate_ieee : forall k rate, (rate < 2 ^ 64)%N ->
+  dyadic_lt k rate = GateIEEE.ieee_lt (GateIEEE.draw_R k) (GateIEEE.rate_f rate).
+Proof. exact GateIEEE.dyadic_lt_ieee. Qed.
+Print Assumptions C15_gate_ieee.
